@@ -440,7 +440,16 @@ fn run(ctx: &Ctx, mode: &str) -> Report {
     report
 }
 
+
+fn fuzz_choices(v: &Value) -> Option<Vec<u16>> {
+    let b: Vec<u8> = serde_json::from_value(v.get("fuzz_bytes")?.clone()).ok()?;
+    Some(b.chunks(2).map(|c| u16::from_le_bytes([c[0], *c.get(1).unwrap_or(&0)])).collect())
+}
+
 fn replay(ctx: &Ctx, v: &Value) -> Result<String, String> {
+    if let Some(ch) = fuzz_choices(v) {
+        return check_range(&decode_range(&ch)).map(|_| "range split is a partition".into()).map_err(|(c, m)| format!("[{c}] {m}"));
+    }
     if v.get("range").is_some() {
         let c: RangeCase = serde_json::from_value(v["range"].clone()).map_err(|e| e.to_string())?;
         return check_range(&c).map(|_| "range split is a partition".into()).map_err(|(c, m)| format!("[{c}] {m}"));
